@@ -259,8 +259,8 @@ Definition array_ok (s : struct) (nc : list field) (f : field) (a : array) : boo
          && (negb abstract || match struct_size_attr es with Some _ => true | None => false end)
          && match a_alignment a with
             | Some al =>
-              (* aligned variable arrays only of abstract parents: byte-sized by a member, or fill *)
-              (0 <? al) && abstract && match a_last_padded a with Some _ => true | None => false end
+              (* aligned variable arrays only of abstract @is_aligned parents: byte-sized by a member, or fill *)
+              (0 <? al) && abstract && has_flag (s_attrs es) "is_aligned" && match a_last_padded a with Some _ => true | None => false end
               && (match a_size a with SzName _ => a_byte_constrained a | SzFill => negb (a_byte_constrained a) | SzNum _ => false end)
               && match a_sort_key a with None => true | Some _ => false end
             | None =>
